@@ -49,6 +49,9 @@ type Scenario struct {
 	// FailWrite > 0 (single request): the k-th transmission of the request fails in the socket
 	// (a transient error: nothing is sent, the attempt is used up)
 	FailWrite int `json:"failWrite,omitempty"`
+	// BadFirst: before anything else the application issues a confirmable POST whose body cannot be
+	// read; it is refused without a transmission - and the requests after it are ordinary ones
+	BadFirst bool `json:"badFirst,omitempty"`
 	// Role: "" a client connection; "server" the connection a dtls.NewServer creates for an accepted peer
 	Role string `json:"role,omitempty"`
 }
@@ -66,10 +69,17 @@ type delivered struct {
 	m refcodec.Msg
 }
 
+// badBody is a request body whose size and content cannot be read.
+type badBody struct{}
+
+func (badBody) Read([]byte) (int, error)       { return 0, fmt.Errorf("body unreadable") }
+func (badBody) Seek(int64, int) (int64, error) { return 0, fmt.Errorf("body not seekable") }
+
 func tok(i int) []byte { return []byte{0xC6, byte(i + 1)} }
 
 func Exec(t *testing.T, sc Scenario, r *evid.Run) *evid.Failure {
 	var failedWrites []time.Duration
+	badFirstAccepted := false
 	n := len(sc.Reqs)
 	outs := make([]outcome, n)
 	var wire []memnet.Record
@@ -104,6 +114,14 @@ func Exec(t *testing.T, sc Scenario, r *evid.Run) *evid.Failure {
 		}...)
 		if errRole != nil {
 			panic(errRole)
+		}
+		if sc.BadFirst {
+			ctx, cancel := context.WithTimeout(context.Background(), time.Second)
+			if _, err := cli.Post(ctx, "/bad", message.TextPlain, badBody{}); err == nil {
+				badFirstAccepted = true
+			}
+			cancel()
+			bubble.Wait()
 		}
 		start := time.Now()
 		var mu sync.Mutex
@@ -260,6 +278,9 @@ func Exec(t *testing.T, sc Scenario, r *evid.Run) *evid.Failure {
 		return evid.Failf("retx/deadlock", sc, "all goroutines blocked while the scenario was still running")
 	}
 	r.Class("teardown_leaks", b2i(res.Leaked))
+	if badFirstAccepted {
+		return evid.Failf("retx/unreadable-body-accepted", sc, "a POST whose body cannot be read returned success")
+	}
 
 	// ---- oracle over the wire log ---------------------------------------------------------------------
 	for i, q := range sc.Reqs {
@@ -425,6 +446,7 @@ func gen(t *rapid.T) Scenario {
 	if rapid.IntRange(0, 2).Draw(t, "role") == 0 {
 		sc.Role = "server"
 	}
+	sc.BadFirst = rapid.IntRange(0, 5).Draw(t, "badfirst") == 0
 	ack := sc.AckTimeoutMs
 	n := rapid.SampledFrom([]int{1, 1, 1, 2, 3}).Draw(t, "nreq")
 	for i := 0; i < n; i++ {
